@@ -164,10 +164,10 @@ pub fn seqs(alpha: &[Vec<u8>], depth: usize) -> Vec<Vec<u8>> {
 
 /// sub-container menu: minimal runtime container, minimal init container (returns sub-container 0),
 /// garbage
-fn sub_runtime() -> Vec<u8> {
+pub fn sub_runtime() -> Vec<u8> {
     Cont::simple(vec![0x00], 0).raw()
 }
-fn sub_init() -> Vec<u8> {
+pub fn sub_init() -> Vec<u8> {
     let mut c = Cont::simple(vec![0x5f, 0x5f, 0xee, 0x00], 2);
     c.containers = vec![sub_runtime()];
     c.raw()
